@@ -1,6 +1,7 @@
 """C14 — xdis.marsh and the built-in marshal are interchangeable on plain values.  Theorems: lean/XV/Props/C14.lean."""
 import json
 import random
+import re
 
 import core
 import mcanon
@@ -39,6 +40,42 @@ def gen(rng, depth=0, hashable=False):
         return ("set(%s)" if k == "set" else "frozenset(%s)") % body
     keys = rng.sample(["None", "'k'", "1", "(1, 2)", "b'k'", "2**70"], min(n, 5))
     return "{" + ", ".join("%s: %s" % (kk, gen(rng, depth + 1)) for kk in keys) + "}"
+
+
+def defloat(sx):
+    """the Model carries float texts; the implementation calls float(text): do that here (ValueError if it does not parse)"""
+    bad = []
+
+    def fl(h):
+        raw = bytes.fromhex(h) if h != "-" else b""
+        try:
+            return mcanon.dbits(float(raw))
+        except ValueError:
+            bad.append(h)
+            return "?"
+    sx = re.sub(r"\(floattext ([0-9a-f-]+)\)", lambda m: "(float %s)" % fl(m.group(1)), sx)
+    sx = re.sub(r"\(complextext ([0-9a-f-]+) ([0-9a-f-]+)\)", lambda m: "(complex %s %s)" % (fl(m.group(1)), fl(m.group(2))), sx)
+    return "(err ValueError)" if bad else sx
+
+
+def malformed(rng, streams, n):
+    """truncations and single-byte mutations of well-formed version-0 streams (a separate, mostly-invalid input stream)"""
+    out = []
+    codes = b"0NTFS.iIlfxstRu([{<>c?g"
+    for _ in range(n):
+        b = bytearray(bytes.fromhex(rng.choice(streams)))
+        k = rng.randrange(4)
+        if k == 0 and len(b) > 1:
+            b = b[:rng.randrange(1, len(b))]
+        elif k == 1:
+            b[rng.randrange(len(b))] = rng.choice(codes)
+        elif k == 2:
+            b[rng.randrange(len(b))] = rng.randrange(256)
+        else:
+            i = rng.randrange(len(b))
+            b[i:i] = bytes([rng.choice(codes)]) + bytes(rng.randrange(256) for _ in range(rng.randrange(0, 5)))
+        out.append(bytes(b).hex())
+    return out
 
 
 def run(ctx):
@@ -88,6 +125,52 @@ def run(ctx):
                 if model is not None and "xdumps" in r and model[i] not in ("(skip-float)", "nop") and model[i].replace("-", "") != r["xdumps"]:
                     rep.violation("corr:dumps:%s" % e, "Model of _Marshaller disagrees with implementation on %s: impl %s model %s" % (e, r["xdumps"][:120], model[i][:120]),
                                   dict(inp, impl=r["xdumps"], model=model[i]), found_input=False)
+            # Spec writer (marshal.c w_object, format versions 0/1) byte-exact against this host
+            okr = [r for r in results if isinstance(r, dict) and "host_dumps0" in r and "host_dumps4" in r]
+            spec = drv.ask(["py.wobj01 %s" % r["host_dumps4"] for r in okr])
+            nspec = 0
+            for r, m in zip(okr, spec):
+                if m.startswith("("):
+                    continue
+                nspec += 1
+                for ver in (0, 1):
+                    if m.replace("-", "") != r.get("host_dumps%d" % ver):
+                        rep.violation("corr:wobj:%d.%d" % hv, "Spec writer disagrees with marshal.dumps(v, %d) on host %d.%d: host %s spec %s"
+                                      % (ver, hv[0], hv[1], str(r.get("host_dumps%d" % ver))[:100], m[:100]),
+                                      {"host": "%d.%d" % hv, "host_dumps4": r["host_dumps4"], "spec": m}, found_input=False)
+                        break
+            rep.count(nspec, (hv, "spec-writer-tie"))
+            # Model of _FastUnmarshaller against xdis.marsh.loads: the host's version-0 streams plus malformed ones
+            good = sorted(set(r["host_dumps0"] for r in okr))
+            crafted = ["3c010000005b00000000", "3e01000000280100000" + "05b00000000", "7b5b000000004e30", "7b4e4e30", "7b4e30",
+                       "2803000000740100000061520000000052ffffffff", "5200000000", "2802000000740200000c3a9"[:0] + "28020000007402000000c3a95201000000",
+                       "7401000000ff", "4900000000000000" + "80", "49ffffffffffffff7f", "6cfeffffff01000200", "6c02000000ff7f0180", "6c0100000000ff",
+                       "30", "5b0100000030", "5bffffffff", "28ffffff7f4e", "73ffffffff", "7305000000abcd", "6605312e35", "66ff", "7801310132", "63", "3f", ""]
+            streams = good + crafted + malformed(rng, good + crafted[:12], 300 if not ctx.thorough else 6000)
+            impl = w.r("marsh_fastloads", streams=streams)
+            mod = drv.ask(["x.fastloads %s" % (h or "-") for h in streams])
+            kinds = {}
+            for h, a, m in zip(streams, impl["results"] if isinstance(impl, dict) else [], mod):
+                if m.startswith("(skip") or a[0] == "untreeable":
+                    kinds["skipped"] = kinds.get("skipped", 0) + 1
+                    continue
+                if a[0] == "err":
+                    got = "(err %s)" % a[1]
+                else:
+                    got = mcanon.render(a[1])
+                want = m if m.startswith("(err") else defloat(m.split(" ", 1)[1])
+                kinds[got if a[0] == "err" else "ok"] = kinds.get(got if a[0] == "err" else "ok", 0) + 1
+                if got != want:
+                    # a bad float text raises ValueError at once in the implementation, the Model reads on: unjudged
+                    if got == "(err ValueError)" and (b"f" in bytes.fromhex(h) or b"x" in bytes.fromhex(h)):
+                        kinds["skipped"] = kinds.get("skipped", 0) + 1
+                        continue
+                    rep.violation("corr:fastloads:%d.%d" % hv, "Model of xdis.marsh.loads disagrees with the implementation on %s: impl %s model %s (host %d.%d)"
+                                  % (h[:80], got[:120], want[:120], hv[0], hv[1]), {"host": "%d.%d" % hv, "stream": h, "impl": got, "model": want},
+                                  found_input=False)
+                    break
+            rep.count(len(streams), (hv, "fastloads-tie"))
+            rep.notes.append("fastloads tie host %d.%d: %d streams (%d well-formed), outcomes %s" % (hv[0], hv[1], len(streams), len(good), json.dumps(kinds, sort_keys=True)))
             rep.sample({"host": "%d.%d" % hv, "value": exprs[-1], "xdis.marsh.dumps": results[-1].get("xdumps", "")[:80]})
             # the same questions after this process has marshalled code objects of other versions
             hist = w.r("marsh_history", repo=core.REPO)
